@@ -62,7 +62,15 @@ Additions of the loop ties of C03 / C20 (marked `[loop ties C03]` / `[loop ties 
                `T['col'] = [E for row in T.itertuples(index=False)]` read per row as `T['col'] = E` (cells are `row.<column>`);
                [loop ties C09] `T = T.assign(c1=v1, ..)` with constant / plain-name values read as `T['c1'] = v1; ..`; a load
                `T.loc[mask, 'col']` is `T['col'][mask]`;
-               an `if` of assignments none of which is read afterwards is refused (it used to end in an IndexError)"""
+               an `if` of assignments none of which is read afterwards is refused (it used to end in an IndexError)
+
+Additions of the control-flow ties of C04 / C12 (marked `[loop ties e3]`; additive, fail-closed, both only under a spec key):
+  statements : spec key `inplace=['.m', ..]`: the statement `x.m(args)` (result discarded) on a plain name x, `.m` being a
+               function-typed parameter, is `x = x.m(args)` -- the method updates x in place, the function input gives the
+               object after the call (refused when x is aliased by a plain `y = x` / `x = y` anywhere in the function);
+               spec key `raising_calls=['f', ..]`: the statement `f(args)` (result discarded), f being a function-typed
+               parameter with result B read as "this call raises", is `raised__ = raised__ or f(args)` (raised__ is bound by
+               `init` and named in `returns`; the values computed after a raising call are those of the continuing path)"""
 import ast, os, sys, glob, importlib.util
 from fractions import Fraction
 
@@ -1006,6 +1014,25 @@ class FnTranslator:
                 continue
             if isinstance(s, ast.Expr) and isinstance(s.value, ast.Call) and ast.unparse(s.value.func).startswith('logging.'):
                 continue                              # a log line: no effect on any value
+            if getattr(self, 'inplace', None) and isinstance(s, ast.Expr) and isinstance(s.value, ast.Call) \
+                    and isinstance(s.value.func, ast.Attribute) and isinstance(s.value.func.value, ast.Name) \
+                    and '.' + s.value.func.attr in self.inplace:
+                # [loop ties e3] spec key `inplace=['.m', ..]`: the statement `x.m(args)` on a plain name x, for a method the spec
+                # declares as a function-typed parameter '.m' (otherwise call() refuses) AND lists in `inplace`: the method updates
+                # the object in place and its result is discarded -- in the value reading of objects (tables as ids) that is
+                # `x = x.m(args)`, the function input giving the object after the call.  function() refuses the spec when x is
+                # aliased by a plain `y = x` / `x = y` anywhere in the function (another name would not see the update).
+                out.append(ast.Assign(targets=[ast.Name(id=s.value.func.value.id, ctx=ast.Store())], value=s.value))
+                continue
+            if getattr(self, 'raising_calls', None) and isinstance(s, ast.Expr) and isinstance(s.value, ast.Call) \
+                    and ast.unparse(s.value.func) in self.raising_calls:
+                # [loop ties e3] spec key `raising_calls=['f', ..]`: the statement `f(args)` whose result is discarded, f a
+                # function-typed parameter with result B (checked in function()) read as "this call raises": recorded in the
+                # boolean `raised__` (bound by the spec's `init`, named in `returns`, like row_keep__): raised__ = raised__ or
+                # f(args).  What is computed afterwards are the values of the path on which no call raised.
+                both = ast.BoolOp(op=ast.Or(), values=[ast.Name(id='raised__', ctx=ast.Load()), s.value])
+                out.append(ast.Assign(targets=[ast.Name(id='raised__', ctx=ast.Store())], value=both))
+                continue
             if isinstance(s, ast.Expr) and isinstance(s.value, ast.Call) and isinstance(s.value.func, ast.Attribute) \
                     and s.value.func.attr == 'append' and isinstance(s.value.func.value, ast.Name) \
                     and len(s.value.args) == 1 and not s.value.keywords and getattr(self, 'yield_types', None) \
@@ -1859,6 +1886,20 @@ class FnTranslator:
         self.row_filter = sp.get('row_filter')       # [loop ties C15] see block(), Return
         self.row_keep = sp.get('row_keep')           # [loop ties C20] see desugar(): `T = T[mask]` per row
         self.columns = sp.get('columns')             # [loop ties C05] see expr(), ListComp / np.apply_along_axis
+        self.inplace = tuple(sp.get('inplace', ()))               # [loop ties e3] see desugar(): `x.m(args)` as `x = x.m(args)`
+        self.raising_calls = tuple(sp.get('raising_calls', ()))   # [loop ties e3] see desugar(): `f(args)` as raised__ = raised__ or f(args)
+        if self.inplace:
+            objs = {x.value.func.value.id for x in ast.walk(fnode)
+                    if isinstance(x, ast.Expr) and isinstance(x.value, ast.Call) and isinstance(x.value.func, ast.Attribute)
+                    and isinstance(x.value.func.value, ast.Name) and '.' + x.value.func.attr in self.inplace}
+            for x in ast.walk(fnode):
+                if isinstance(x, ast.Assign) and isinstance(x.value, ast.Name) and (
+                        x.value.id in objs or any(isinstance(t, ast.Name) and t.id in objs for t in x.targets)):
+                    raise Refuse('%s.%s: an object updated in place is aliased by `%s`; `inplace` does not apply'
+                                 % (self.rel, sp['name'], ast.unparse(x)))
+        for f in self.raising_calls:
+            if not any(p[0] == f and p[1].startswith('F:') and p[1].endswith('>B') for p in sp['params']):
+                raise Refuse('%s.%s: raising_calls: %s is not a function-typed parameter with result B' % (self.rel, sp['name'], f))
         for nm in self.attr_store_ok:
             for x in ast.walk(fnode):
                 if isinstance(x, ast.Assign) and isinstance(x.value, ast.Name) and (
